@@ -63,7 +63,8 @@ class PendingNamedExpr(PendingExprGeneric[NamedExpr]):
                 value=List(
                     elts=[
                         result,
-                        self.node.target,
+                        # the name may live in a dict: read it the same way
+                        self.nsp.get_load_name(self.node.target.id),
                     ],
                     ctx=Load(),
                 ),
